@@ -22,9 +22,9 @@ def run_queue(tier, seed):
     cases = r.printed("CASE")
     total_cases = len(cases)
     if tier == "quick":
-        # every sequence whose first 3 operations are distinct prefixes is kept once per 8 (BLS verification in the real
+        # every sequence whose first 3 operations are distinct prefixes is kept once per 53 (53 is coprime with the branching factor 24; BLS verification in the real
         # filter costs ~2 ms per send); the thorough tier replays all of them
-        cases = [c for i, c in enumerate(cases) if (i + seed) % 8 == 0]
+        cases = [c for i, c in enumerate(cases) if (i + seed) % 53 == 0]
     cp = os.path.join(d, "cases.ndjson")
     common.write_ndjson(cp, cases)
     rp = os.path.join(d, "report.json")
